@@ -170,6 +170,25 @@ def contains_call(node, callees):
     return any(cal in callees for (_, cal) in calls(node))
 
 
+def eval_callees(c):
+    """the functions of the crate from which a flag-reading layer `forward` is reachable in the MIR call graph (predict, forward,
+    predict_batch, ... and any helper added around them), minus learn/validate themselves"""
+    flagged, blocks, _ = layer_kinds(c)
+    targets = {adt + "::forward" for adt in list(flagged.values()) + list(blocks.values())}
+    rev = {}
+    for mk, mv in c.mir.items():
+        for cl in mv["facts"]["calls"]:
+            rev.setdefault(cl["callee"], set()).add(mv["parent"])
+    seen, stack = set(), list(targets)
+    while stack:
+        f = stack.pop()
+        if f in seen:
+            continue
+        seen.add(f)
+        stack.extend(rev.get(f, ()))
+    return tuple(sorted((set(f for f in seen if f in c.fns) | set(EVAL_CALLEES)) - {"network::Network::learn", "network::Network::validate"}))
+
+
 def _e6_dropout_view(c, fn):
     """E6 view of a layer forward: for every non-panicking path (training known true?, dropout effects, does the dropout setting occur in
     the result / the effects?)."""
@@ -338,7 +357,7 @@ def r3(ctx):
     if before:
         bi = stmts.index(before[-1])
         for s in stmts[:bi]:
-            if contains_call(s, EVAL_CALLEES + ("network::Network::validate",)):
+            if contains_call(s, eval_callees(c) + ("network::Network::validate",)):
                 ctx.bad("R09.3", "evaluation-before-flags", "evaluation-before-set-true", c.loc(fn, s), short(pretty(s)))
 
 
@@ -347,7 +366,8 @@ def r4(ctx):
     fn = ctx.fn("network::Network::validate")
     flagged, blocks, _ = layer_kinds(c)
     stmts = top_stmts(fn)
-    evals = [i for i, s in enumerate(stmts) if contains_call(s, EVAL_CALLEES)]
+    EV = eval_callees(c)
+    evals = [i for i, s in enumerate(stmts) if contains_call(s, EV)]
     if not evals:
         raise Unestablished("validate does not call predict/forward", c.loc(fn))
     first = evals[0]
@@ -358,6 +378,17 @@ def r4(ctx):
         return
     ci = clears[-1]
     check_set_all(ctx, "R09.4", "clear-before-evaluation", fn, stmts[ci], ("lit", "false"), flagged, blocks)
+    # between the clearing and the last evaluation nothing switches a flag back on
+    early = []
+    for s in stmts[ci + 1:evals[-1] + 1]:
+        for x in walk(s):
+            if (x.get("k") == "assign" and strip(x["l"]).get("k") == "field" and strip(x["l"])["f"] == FLAG and e4.lit_value(x["r"]) != "false") or \
+               (x.get("k") == "mcall" and x["callee"].endswith("::training") and x["args"] and e4.lit_value(x["args"][0]) != "false"):
+                early.append(x)
+    ctx.check("R09.4", "flags-stay-cleared-until-last-evaluation", not early, "flags-set-before-last-evaluation", c.loc(fn, early[0]) if early else c.loc(fn),
+              "no flag is switched on between the clearing and the last statement that evaluates the network (%d statements)" % (evals[-1] - ci),
+              "validate switches a training flag on at %s while a later statement still evaluates the network (%s): that evaluation runs with dropout"
+              % (c.loc(fn, early[0]) if early else "", short(pretty(stmts[evals[-1]]), 80)))
     # restore: any later statement that sets flags true must be `if <local> { set-all(true) }` with a faithful local
     for s in stmts[evals[-1] + 1:]:
         sets_true = [x for x in walk(s) if x.get("k") == "assign" and strip(x["l"]).get("k") == "field"
